@@ -77,6 +77,12 @@ func vh_SAE() {
 		vAssert(req.LeaderCommit == at.commit, "MSG.leader-commit")
 		vAssert(req.LeaderCommit <= req.PrevLogIndex+uint64(len(req.Entries)), "C06|MSG.leader-commit-within-request")
 		vHavocScalars(n, "h", []State{Leader, Follower, Candidate})
+		// G5: a node that is still leader of the same term may have appended to its log meanwhile
+		if r.state == Leader && r.currentTerm == at.term && vNondetBool("h.log-grew") {
+			ne := &LogEntry{Index: n.log.LastIndex() + 1, Term: r.currentTerm, EntryType: OperationEntry, Data: []byte{vNondetByte("h.newdata")}}
+			n.log.entries = append(n.log.entries, ne)
+			vTag("log-grew-during-rpc", "yes")
+		}
 		mid = vSnapshotNode(n)
 		if vNondetBool("rpc.fails") {
 			rpcFailed = true
@@ -103,7 +109,7 @@ func vh_SAE() {
 	vCheckInv(n, true, true)
 	vAssert(post.term >= mid.term, "C08.termMono")
 	vAssert(vAnd(post.durTerm == post.term, post.durVote == post.votedFor), "C02|C08.persisted(N3)")
-	vAssert(vImplies(vAnd(post.term == mid.term, mid.votedFor != ""), post.votedFor == mid.votedFor), "C02|C08.vote-stable(G2)")
+	vAssert(vImplies(vAnd(post.term == mid.term, mid.votedFor != ""), post.votedFor == mid.votedFor), "C01|C02|C07|C08.vote-stable(G2)")
 	vAssert(vImplies(vAnd(mid.state == Leader, post.state != Leader), post.term > mid.term), "C16.leader-steps-down-only-on-higher-term")
 	vAssert(vAnd(post.logLen == mid.logLen, post.commit == mid.commit), "C01|C07.sender-never-rewrites-log")
 	if !rpcFailed && mid.state == Leader && r.isMember(target) {
@@ -115,10 +121,10 @@ func vh_SAE() {
 	// ---- C01.match: matchIndex only records what the answered request established, in its own term
 	if f.matchIndex != match0 {
 		vCover("match-advanced")
-		vAssert(resp.Success, "C01|C04.match-only-on-success")
-		vAssert(post.state == Leader, "C01.match-only-while-leader")
-		vAssert(post.term == sent.Term, "C01|C04.match-only-in-the-term-of-the-request")
-		vAssert(f.matchIndex == sent.PrevLogIndex+uint64(len(sent.Entries)), "C01|C04.match-is-last-entry-of-request")
+		vAssert(resp.Success, "C01|C03|C04|C07.match-only-on-success")
+		vAssert(post.state == Leader, "C01|C07.match-only-while-leader")
+		vAssert(post.term == sent.Term, "C01|C03|C04|C07.match-only-in-the-term-of-the-request")
+		vAssert(f.matchIndex == sent.PrevLogIndex+uint64(len(sent.Entries)), "C01|C03|C04|C07.match-is-last-entry-of-request")
 		vAssert(f.matchIndex <= post.lastIndex, "C01|INV.match<=last(N7)")
 		vAssert(f.matchIndex > match0, "C01.match-monotone")
 		vAssert(f.nextIndex > f.matchIndex, "INV.match<next(N7)")
